@@ -334,6 +334,24 @@ def run(ctx):
                         hv('is-fixed-length', {'length': t[2]})
         if tok.contains_name(f'absent{n}'):
             hv('contains-name', {'name': f'absent{n}', 'expected': False})
+        # the same message type (one token object, one type name) on several branches of one tree
+        subs = [t for t in sch[1].values() if t[0] == 'msg']
+        if subs:
+            sub_s = subs[0]
+            sub_tok = hplapi.type_token(sub_s, 'Shared', rng)
+            tree = ('msg', {'first': sub_s, 'second': sub_s, 'k': gen.NUM, 'deep': ('msg', {'third': sub_s}, {})}, {})
+            deep_tok = HT.MessageType('Deep', fields={'third': sub_tok})
+            tree_tok = HT.MessageType('Tree', fields={'first': sub_tok, 'second': sub_tok, 'k': HT.FLOAT64, 'deep': deep_tok})
+            o2 = hplapi.outcome(tree_tok.leaf_fields)
+            exp2 = {k: DataType[SC.KIND[t[0]]] for k, t in SC.leaf_fields_model(tree).items()}
+            ctx.evaluation('helpers|shared-subtype', True)
+            ctx.count('helpers_judged')
+            ctx.count('shared_subtype_trees')
+            got2 = {k: v.type for k, v in o2[1].items()} if o2[0] == 'ok' else None
+            if got2 != exp2:
+                hv('leaf-fields', {'schema': 'Tree{first: S, second: S, k, deep{third: S}} with S = ' + gen.schema_shape(sub_s)[:120],
+                                   'expected': sorted(exp2), 'observed': sorted(got2) if got2 is not None else hplapi.exc_class(o2)},
+                   ('api:leaf_fields', 'shape:shared-subtype'))
 
     if ctx.shard == 0:
         for name, bits, signed in (('UINT8', 8, False), ('UINT16', 16, False), ('UINT32', 32, False),
